@@ -623,6 +623,9 @@ func runMSpec(c *Check, tier string, spec *mc.MSpec, deadline time.Time) (mRepor
 	if maxDepth == 0 {
 		maxDepth = 5
 	}
+	if v := os.Getenv("VERIF_MDEPTH"); v != "" { // experiments only
+		fmt.Sscan(v, &maxDepth)
+	}
 	nw := runtime.NumCPU()
 	if nw > 16 {
 		nw = 16
